@@ -118,9 +118,11 @@ def check_launch(part, o, rows, obj, ap, ft, tele, mf, det, extra=''):
                                expected=[0, 0, 1], tol=TOL)
             rim = np.where(np.abs(np.hypot(Px, Py) - 1) < 1e-12)[0]
             sines = np.hypot(D[rim, 0], D[rim, 1])
-            if np.max(np.abs(sines - ap[1])) > TOL:
+            # the stated numerical aperture is n0 sin(theta) in the object medium
+            n0 = rows[0]['n_post']
+            if np.max(np.abs(sines - ap[1] / n0)) > TOL:
                 part.violation(PID, 'telecentric-rim-sine-is-NA', 'RayGenerator.generate_rays', c, d2,
-                               observed=sines[:4], expected=ap[1], tol=TOL)
+                               observed=sines[:4], expected=ap[1] / n0, tol=TOL)
             # direction of pupil point (Px,Py): azimuth follows (Px,Py)
             r = np.hypot(Px, Py)
             nz = r > 0
@@ -229,6 +231,11 @@ def run_word(part, unit):
                     det = dict(det0, obj=obj, ap=list(ap), ftype=ft, tele=False, fields=[0.0, 0.6 * mf, mf], object_medium=n0)
                     part.count('immersed-object-configurations')
                     check_launch(part, o, rows, obj, ap, ft, False, mf, det, extra=',object-medium=immersed')
+                    if ap[0] == 'objectNA' and ft == 'object_height':
+                        sp_t = dict(sp, tele=True)
+                        o_t = LZ.build(sp_t)
+                        part.states += 1
+                        check_launch(part, o_t, rows, obj, ap, ft, True, mf, dict(det, tele=True), extra=',object-medium=immersed')
     part.sample(dict(word=unit['word'], stop=unit['stop']))
 
 
